@@ -21,6 +21,10 @@
      X o                                                     destroy
      B n                                                     unrelated activity (other objects come and go)
    fmt: 0 = 16-bit, 1 = 24-bit (value x 256), 2 = float (value / 32768).
+   sig (16-bit samples, a function of the absolute sample index, so block k is the same whoever encodes it): 0 digital silence,
+   1 speech-like, 2 music-like, 3 noise at -12 dB, 4 full-scale square wave with full-scale noise bursts, 5 noise of +-3 units,
+   6 speech with pauses of digital silence, 7 family 4 at -18 dB, 8 pure tone of 64 units, 9 chord of a few hundred units,
+   10 / 11 channels with nothing in common.
    Decoders use the format given at creation; each has a float twin ("shadow") fed the same calls, from whose
    output the 24-bit / 16-bit sample relations are measured (mismatch counts, never a verdict).
    Output: NDJSON, one event per op. */
@@ -133,6 +137,10 @@ static opus_int16 sig_sample(int sig, int fs, int c, long i)
    long id = c ? i - 3 * c : i;            /* other channels: delayed and attenuated, so stereo is real */
    if (id < 0) id = 0;
    t = (double)id / fs;
+   /* families 10, 11: channels that have nothing in common (10: speech-like on the even channels, music-like on the odd
+      ones; 11: even channels silent, noise on the odd ones) - what a down-mix that drops or doubles a channel changes */
+   if (sig == 10) return sig_sample((c & 1) ? 2 : 1, fs, 0, i);
+   if (sig == 11) return (c & 1) ? sig_sample(3, fs, 0, i) : 0;
    switch (sig) {
    case 0: return 0;
    case 6:   /* speech with pauses of digital silence: 400 ms on, 300 ms off */
@@ -159,6 +167,12 @@ static opus_int16 sig_sample(int sig, int fs, int c, long i)
       cg = sig == 7 ? 0.125 : 1.0;
       break; }
    case 5: s = 3.0 / 32768.0 * hnoise(sig, c, id); cg = 1.0; break;
+   case 8: s = 64.0 / 32768.0 * sin(2 * M_PI * 1000.0 * t); cg = 1.0; break;                  /* faint pure tone: 64 units peak */
+   case 9: {  /* faint chord, a few hundred units peak, silent above 4 kHz apart from the rounding noise */
+      static const double fr[4] = {261.63, 392.0, 1046.5, 3136.0};
+      for (h = 0; h < 4; h++) s += sin(2 * M_PI * fr[h] * t + h) * (0.6 + 0.4 * sin(2 * M_PI * (0.3 + 0.1 * h) * t));
+      s *= 120.0 / 32768.0; cg = 1.0;
+      break; }
    default: s = 0.5 * sin(2 * M_PI * 1000.0 * t);
    }
    s *= cg * 32767.0;
